@@ -2,6 +2,7 @@
 use vstd::prelude::*;
 verus! {
 //@include specs/chars.rs
+//@include specs/ws.rs
 //@unit src/whitespace.rs enum Operation
 //@rule derive_only(Debug ;; Clone ;; Copy ;; PartialEq ;; Eq)
 #[derive(Debug, Clone, Copy, Eq, PartialEq)]
@@ -15,18 +16,6 @@ pub enum Operation {
 impl vstd::std_specs::cmp::PartialEqSpecImpl for Operation {
     open spec fn obeys_eq_spec() -> bool { true }
     open spec fn eq_spec(&self, other: &Operation) -> bool { *self == *other }
-}
-pub open spec fn clean(s: Seq<Seq<char>>) -> bool {
-    &&& forall|k: int| 0 <= k < s.len() && ch_ws(#[trigger] s[k]) ==> s[k] == space()
-    &&& (s.len() > 0 ==> !ch_ws(s[0]) && !ch_ws(s[s.len() - 1]))
-    &&& forall|k: int| 0 <= k < s.len() - 1 && ch_ws(#[trigger] s[k]) ==> !ch_ws(s[k + 1])
-}
-pub open spec fn strip_from(s: Seq<Seq<char>>, k: int) -> Seq<Seq<char>>
-    decreases s.len() - k
-{
-    if k < 0 || k >= s.len() { Seq::empty() }
-    else if ch_ws(s[k]) { strip_from(s, k + 1) }
-    else { seq![s[k]] + strip_from(s, k + 1) }
 }
 pub open spec fn piece(s: Seq<Seq<char>>, ops: Seq<Operation>, idx: int) -> Seq<Seq<char>> {
     if ops[idx] == Operation::Insert && !ch_ws(s[idx]) && (idx == 0 || !ch_ws(s[idx - 1])) { seq![space(), s[idx]] }
@@ -45,20 +34,13 @@ proof fn lemma_rep_prefix(s: Seq<Seq<char>>, o0: Seq<Operation>, o1: Seq<Operati
 {
     if k > 0 { lemma_rep_prefix(s, o0, o1, k - 1); }
 }
-proof fn lemma_strip_nonempty_if_nonws(s: Seq<Seq<char>>, k: int, w: int)
-    requires 0 <= k <= w < s.len(), !ch_ws(s[w]),
-    ensures strip_from(s, k).len() > 0,
-    decreases w - k
-{
-    if k < w { lemma_strip_nonempty_if_nonws(s, k + 1, w); }
-}
 //@unit src/whitespace.rs fn operations
 //@rule R4
 //@rule R15_collect
 pub fn operations(from: &str, to: &str, use_graphemes: bool) -> (res: VtResult<Vec<Operation>>)
     requires
         ({ let f = chars_of(from, use_graphemes); let t = chars_of(to, use_graphemes);
-           clean(f) && clean(t) && strip_from(f, 0) == strip_from(t, 0) }),
+           is_clean(f) && is_clean(t) && strip_from(f, 0) == strip_from(t, 0) }),
     ensures
         ({ let f = chars_of(from, use_graphemes); let t = chars_of(to, use_graphemes);
            res.is_ok() && res.unwrap().len() == f.len() && rep(f, res.unwrap()@, f.len() as int) == t }),
@@ -75,7 +57,7 @@ pub fn operations(from: &str, to: &str, use_graphemes: bool) -> (res: VtResult<V
     proof { axiom_space_ws(); assert(t.subrange(0, 0) =~= Seq::<Seq<char>>::empty()); }
     while from_ptr < from_chars.len()
         invariant
-            f == chv(from_chars@), t == chv(to_chars@), clean(f), clean(t),
+            f == chv(from_chars@), t == chv(to_chars@), is_clean(f), is_clean(t),
             from_ptr <= from_chars.len(), to_ptr <= to_chars.len(),
             operations.len() == from_ptr,
             rep(f, operations@, from_ptr as int) == t.subrange(0, to_ptr as int),
@@ -181,27 +163,6 @@ pub fn operations(from: &str, to: &str, use_graphemes: bool) -> (res: VtResult<V
 }
 //@end
 
-pub open spec fn flat(s: Seq<Seq<char>>) -> Seq<char>
-    decreases s.len()
-{
-    if s.len() == 0 { Seq::empty() } else { flat(s.drop_last()) + s.last() }
-}
-proof fn lemma_flat_append(a: Seq<Seq<char>>, b: Seq<Seq<char>>)
-    ensures flat(a + b) == flat(a) + flat(b)
-    decreases b.len()
-{
-    if b.len() == 0 {
-        assert(a + b =~= a);
-        assert(flat(b) =~= Seq::<char>::empty());
-        assert(flat(a) + flat(b) =~= flat(a));
-    } else {
-        assert((a + b).drop_last() =~= a + b.drop_last());
-        assert((a + b).last() == b.last());
-        lemma_flat_append(a, b.drop_last());
-        assert(flat(a + b) == flat(a + b.drop_last()) + b.last());
-        assert(flat(a) + flat(b.drop_last()) + b.last() =~= flat(a) + (flat(b.drop_last()) + b.last()));
-    }
-}
 fn vt_min(a: usize, b: usize) -> (r: usize) ensures r == if a <= b { a } else { b } { if a <= b { a } else { b } }
 //@unit src/whitespace.rs fn repair
 //@rule R4
@@ -254,35 +215,6 @@ pub fn repair(s: &str, operations: &[Operation], use_graphemes: bool) -> (res: V
 //@end
 
 // ---------------------------------------------------------------- property-level lemmas over `rep` alone
-pub open spec fn strip(s: Seq<Seq<char>>) -> Seq<Seq<char>> { strip_from(s, 0) }
-
-proof fn lemma_strip_append(a: Seq<Seq<char>>, b: Seq<Seq<char>>, k: int)
-    requires 0 <= k <= a.len(),
-    ensures strip_from(a + b, k) == strip_from(a, k) + strip_from(b, 0),
-    decreases a.len() - k
-{
-    if k == a.len() {
-        assert(strip_from(a, k) =~= Seq::<Seq<char>>::empty());
-        lemma_strip_shift(a, b, 0);
-        assert(Seq::<Seq<char>>::empty() + strip_from(b, 0) =~= strip_from(b, 0));
-    } else {
-        lemma_strip_append(a, b, k + 1);
-        assert((a + b)[k] == a[k]);
-        if !ch_ws(a[k]) {
-            assert(seq![a[k]] + (strip_from(a, k + 1) + strip_from(b, 0)) =~= (seq![a[k]] + strip_from(a, k + 1)) + strip_from(b, 0));
-        }
-    }
-}
-proof fn lemma_strip_shift(a: Seq<Seq<char>>, b: Seq<Seq<char>>, j: int)
-    requires 0 <= j <= b.len(),
-    ensures strip_from(a + b, a.len() + j) == strip_from(b, j),
-    decreases b.len() - j
-{
-    if j < b.len() {
-        lemma_strip_shift(a, b, j + 1);
-        assert((a + b)[a.len() + j] == b[j]);
-    }
-}
 /// repair changes nothing but whitespace: for EVERY operation sequence
 proof fn lemma_rep_preserves_nonws(s: Seq<Seq<char>>, ops: Seq<Operation>, k: int)
     requires 0 <= k <= s.len(), ops.len() >= k,
